@@ -144,6 +144,11 @@ impl Identifier {
         &&& ((t == "us"@ || t == "µs"@) ==> r == Some(TimeUnit::MicroSecond)) &&& (t == "ns"@ ==> r == Some(TimeUnit::NanoSecond))
         &&& (t == "dt"@ ==> r == Some(TimeUnit::Cycle)) &&& (t == "im"@ ==> r == Some(TimeUnit::Imaginary)) }) }),      //@C03,C06:time-unit-spellings
     first::<Identifier>(%s) is None ==> r is None,''' % (KS, KS)))])
+    # every other hand-written accessor of node_ext.rs / expr_ext.rs / type_ext.rs: not verified (token-level iterator chains, string
+    # slicing); SEMA sees them as opaque accessors.  Their text is pinned, so that a change is "no verdict", never a silent pass.
+    U.n_pinned = 0
+    for fc in (n, e, tf):
+        U.n_pinned += fc.guard_rest('hand-written AST accessor outside the verified set: opaque to the analyser model; text pinned')
     U.assumed_parser = ['IF_STMT children: condition expression (not a block), then-body, optional else-body (if_shape)',
                         'WHILE_STMT children: condition expression (not a block), body (while_shape)',
                         'FOR_STMT children: type, loop variable, iterable, body (for_shape)',
